@@ -138,6 +138,31 @@ CLAIMED = {
         "is the recorded finding D23 and is not injected. The nedtrie dirty index is not modelled.",
    technique="Lean 4 proof (case analysis over cut points of the write-then-rename trace, induction over the dirty list) + fault-injecting differential check",
    design="§5 C06"),
+ "C13": dict(
+   text="Lean theorems (Echse.Props.C13) about the transcribed prep_task decision chain and the routing it implies (direct "
+        "descriptors, or pipes pumped by data_cb into the mail file and tee'd to the output files, mail body = contents of "
+        "mfn): for all 20 documented OFILE/EFILE/same-file/MAIL-OUT/MAIL-ERR rows (all 2^5 inputs) and ALL chunk lists, OFILE "
+        "receives exactly the stdout bytes in order iff set, EFILE likewise, a shared file both in order, the mail body the "
+        "requested stream(s), nothing duplicated, the temporary file is marked for removal iff it is the mail file. The real "
+        "echsx (echsx.c compiled unmodified, mailer redirected to a recorder) is run on every row with jobs writing up to "
+        "300 000 patterned bytes, exit codes and fatal signals; files, mail, journal, cwd, umask, stdin and left-over "
+        "temporary files are judged directly and the per-sink totals compared with the model.",
+   note="Trusted: Lean kernel; splice/sendfile/posix_spawn/fcntl locking as on this kernel; harness hx_echsx.c + jobgen.py; "
+        "setuid/setgid only exercised for the invoking user; mail headers and the SMTP side are not checked; cross-stream "
+        "interleaving in a shared sink is not compared.",
+   technique="Lean 4 proof (decision table by case analysis x induction over chunk lists) + differential run of the real executor",
+   design="§5 C13"),
+ "C14": dict(
+   text="Lean theorems (Echse.Props.C14) over the duration printer/parser model (C18) and the daemon model: the limit echsd "
+        "writes into the execution request (DURATION:PT<n>S with n = ceil(limit / 1 s)) parses back to n*1000 ms and arms "
+        "alarm(n), for every limit; overdue DUE requests are refused. echsd.c (virtual-time loop) is run on tasks whose limit "
+        "is spelled as DURATION in every ISO form or as DTEND and the VTODO it hands to the executor is compared with model "
+        "and reference; the real echsx is run with limits of 1-3 s and a DUE time against a sleeping job and must kill it "
+        "with SIGXCPU after about the limit.",
+   note="Trusted: as C04 and C13; signal delivery and scheduling jitter of about a second; echsx's ms->s conversion is modelled "
+        "from the source expression, not translated mechanically.",
+   technique="Lean 4 proof (unit pipeline as composed functions) + differential daemon histories + timed runs of the real executor",
+   design="§5 C14"),
 }
 
 checks = []
